@@ -515,6 +515,16 @@ V("C20", "save-returns-early-for-empty-trajectories", "mdtraj/core/trajectory.py
 V("C20", "twin-save-binds-result-first", "mdtraj/core/trajectory.py", "        # run the saver, and return whatever output it gives\n        return saver(filename, **kwargs)", "        # run the saver, and return whatever output it gives\n        result = saver(filename, **kwargs)\n        return result", None)
 V("C12", "atom-eq-ignores-the-index", "mdtraj/core/topology.py", "        if self.index != other.index:\n            return False\n        if self.element.name != other.element.name:", "        if self.element.name != other.element.name:", "C12-R1", "SelectionKeyword")
 
+# round 14
+V("C14", "bond-triplets-memoised-per-topology", "mdtraj/geometry/hbond.py", "def _get_bond_triplets(topology, exclude_water=True, sidechain_only=False):", "@functools.lru_cache(maxsize=16)\ndef _get_bond_triplets(topology, exclude_water=True, sidechain_only=False):", "C14-R2", "_get_bond_triplets")
+V("C14", "kabsch-sander-row-pointer-shared-by-the-frames", "mdtraj/geometry/hbond.py", None, None, "C14-R3", "kabsch_sander", edits=[("        indptr = np.zeros(n_residues + 1, np.int32)\n        indptr[1:] = np.cumsum(mask.sum(axis=1))", "        indptr[1:] = np.cumsum(mask.sum(axis=1))"), ("    hbonds_mask = hbonds != -1\n", "    hbonds_mask = hbonds != -1\n    indptr = np.zeros(n_residues + 1, np.int32)\n")])
+V("C14", "twin-kabsch-sander-row-pointer-by-concatenate", "mdtraj/geometry/hbond.py", "        indptr = np.zeros(n_residues + 1, np.int32)\n        indptr[1:] = np.cumsum(mask.sum(axis=1))", "        indptr = np.zeros(n_residues + 1, np.int32)\n        counts = mask.sum(axis=1)\n        indptr[1:] = np.cumsum(counts)", None)
+V("C12", "sidechain-for-every-non-backbone-atom", "mdtraj/core/topology.py", '        return self.name not in {"C", "CA", "N", "O", "HA", "H"} and self.residue.is_protein', '        return not self.is_backbone and self.name not in {"HA", "H"}', "C12-R1", "SelectionKeyword")
+V("C10", "neighbors-sorted-before-return", "mdtraj/geometry/src/neighbors.cpp", None, None, "C10-R1", "_compute_neighbors", edits=[("#include <cmath>\n", "#include <algorithm>\n#include <cmath>\n"), ("    return result;\n}", "    std::sort(result.begin(), result.end());\n    return result;\n}")])
+V("C08", "sasa-buffer-cleared-by-element-count", "mdtraj/geometry/src/sasa.cpp", None, None, "C08-R2", "sasa", edits=[("#include <cstdio>\n", "#include <cstdio>\n#include <cstring>\n"), ("    for (int j = 0; j < n_atoms; j++) {\n        outframebuffer[j] = 0;\n    }", "    memset(outframebuffer, 0, n_atoms);")])
+V("C08", "twin-sasa-buffer-cleared-by-memset-bytes", "mdtraj/geometry/src/sasa.cpp", None, None, None, edits=[("#include <cstdio>\n", "#include <cstdio>\n#include <cstring>\n"), ("    for (int j = 0; j < n_atoms; j++) {\n        outframebuffer[j] = 0;\n    }", "    memset(outframebuffer, 0, n_atoms * sizeof(float));")])
+V("C06", "superpose-reference-not-copied-when-self", "mdtraj/core/trajectory.py", "            copy=True,\n            order=\"c\",\n        ).reshape(1, -1, 3)", "            copy=reference is not self,\n            order=\"c\",\n        ).reshape(1, -1, 3)", "C06-R2", "Trajectory.superpose")
+
 # twins learnt from the independently seeded changes (the refactoring without the bug must stay silent)
 V("C04", "twin-hdf5-getter-uses-dict-get", "mdtraj/formats/hdf5.py",
   """                try:
